@@ -314,6 +314,8 @@ func runC04(r resIface, c *c04case, rng *prng.R, nRestarts int) {
 		srv.Replay(B[:p.k])
 		cc := *c
 		cc.Cut = p.k
+		// another source syncs into the same target: its checkpoint fields share the hash and must survive our restart
+		foreign := plantForeignCheckpoint(srv)
 		sc2 := fakesource.Script{RunID: e2eRunID, StartOffset: c.StartOffset, RDB: minimalRDB(rng, nil), HonorFirst: true}
 		// the checkpoint hash is keyed by source address and the restarted fake source listens on a fresh port:
 		// rewrite the stored fields to the new address before the tool reads them.
@@ -340,6 +342,10 @@ func runC04(r resIface, c *c04case, rng *prng.R, nRestarts int) {
 		}
 		_, ps := e2.Src.Snapshot()
 		r.Count("restarts", 1)
+		if lost := foreignCheckpointLost(srv, foreign); lost != "" && len(ps) > 0 {
+			r.Violation(sig("restart-erases-another-sources-checkpoint"), fmt.Sprintf("restart from cut %d: %s; that source would restart from an older position (or from scratch) and apply commands twice", p.k, lost), &cc)
+			return
+		}
 		if len(ps) == 0 {
 			if os.Getenv("VERIF_DEBUG") != "" {
 				buf := make([]byte, 1<<20)
@@ -363,6 +369,59 @@ func runC04(r resIface, c *c04case, rng *prng.R, nRestarts int) {
 			return
 		}
 	}
+}
+
+const foreignSource = "10.200.0.9:6379"
+
+// plantForeignCheckpoint adds another source's checkpoint (run id, version, offset) to every database that holds the
+// checkpoint hash, and to one that does not; returns what was planted as "db/field" -> value.
+func plantForeignCheckpoint(srv *miniredis.Server) map[string]string {
+	srv.Mu.Lock()
+	defer srv.Mu.Unlock()
+	out := map[string]string{}
+	dbs := []int{9}
+	for db, keys := range srv.DBs {
+		if e := keys[ckptKey]; e != nil && e.Val.Kind == "hash" {
+			dbs = append(dbs, db)
+		}
+	}
+	for _, db := range dbs {
+		if srv.DBs[db] == nil {
+			srv.DBs[db] = map[string]*miniredis.Entry{}
+		}
+		e := srv.DBs[db][ckptKey]
+		if e == nil {
+			e = &miniredis.Entry{Val: &rdbgen.Value{Kind: "hash"}}
+			srv.DBs[db][ckptKey] = e
+		}
+		for f, v := range map[string]string{"-runid": "ffffffffffffffffffffffffffffffffffffffff", "-offset": strconv.Itoa(1000 + db), "-version": "1"} {
+			e.Val.Hash = append(e.Val.Hash, [2][]byte{[]byte(foreignSource + f), []byte(v)})
+			out[fmt.Sprintf("%d/%s%s", db, foreignSource, f)] = v
+		}
+	}
+	return out
+}
+
+func foreignCheckpointLost(srv *miniredis.Server, planted map[string]string) string {
+	srv.Mu.Lock()
+	defer srv.Mu.Unlock()
+	for k, v := range planted {
+		var db int
+		var field string
+		fmt.Sscanf(k, "%d/%s", &db, &field)
+		found := false
+		if e := srv.DBs[db][ckptKey]; e != nil && e.Val.Kind == "hash" {
+			for _, p := range e.Val.Hash {
+				if string(p[0]) == field && string(p[1]) == v {
+					found = true
+				}
+			}
+		}
+		if !found {
+			return fmt.Sprintf("checkpoint field %q of another source (db %d) is gone or changed after the restart", field, db)
+		}
+	}
+	return ""
 }
 
 // renameSource: the checkpoint fields are keyed by the source address; a restarted fake source has a new port.
